@@ -38,7 +38,7 @@ Proof.
 Qed.
 
 Theorem C20_idempotent_if_attrs_stable : forall M U R (I : interp M U R) (p : policy M U R),
-  plain_policy I p ->
+  plain_policy I p -> allowComments p = false ->
   (forall n a aps, element_policies I p n = Some aps ->
      clean_attrs I p n (clean_attrs I p n a aps) aps = clean_attrs I p n a aps) ->
   forall s, sanitize_bytes I p (sanitize_bytes I p s) = sanitize_bytes I p s.
@@ -53,11 +53,11 @@ Proof. intros M U R I p n a aps. exact (clean_attrs_idem_plain I p n a aps). Qed
 
 (* hence: policies all of whose elements are of that kind are idempotent on every input *)
 Corollary C20_idempotent_plain_elements : forall M U R (I : interp M U R) (p : policy M U R),
-  plain_policy I p ->
+  plain_policy I p -> allowComments p = false ->
   (forall n, elem_allowed I p n = true -> linkable n = false /\ has_style_policies I p n = false) ->
   forall s, sanitize_bytes I p (sanitize_bytes I p s) = sanitize_bytes I p s.
 Proof.
-  intros M U R I p Hplain Hel. apply (sanitize_idempotent I p Hplain).
+  intros M U R I p Hplain Hnc Hel. apply (sanitize_idempotent I p Hplain Hnc).
   intros n a aps Hp. assert (Ha : elem_allowed I p n = true) by (rewrite element_policies_allowed, Hp; reflexivity).
   destruct (Hel n Ha) as [H1 H2]. apply clean_attrs_idem_plain; assumption.
 Qed.
@@ -65,7 +65,7 @@ Qed.
 Theorem C20_strict : forall (I : interp smatcher unit unit) s,
   sanitize_bytes I strict (sanitize_bytes I strict s) = sanitize_bytes I strict s.
 Proof.
-  intros I. apply (sanitize_idempotent I strict (strict_plain I)).
+  intros I. apply (sanitize_idempotent I strict (strict_plain I) strict_no_comments).
   intros n a aps Hp. pose proof (element_policies_allowed I strict n) as E.
   rewrite (strict_nothing I), Hp in E. discriminate.
 Qed.
@@ -83,13 +83,13 @@ Definition c20_policy : policy smatcher unit unit :=
                     @ORequireNoFollowOnLinks _ _ _ true; @OAddTargetBlankToFullyQualifiedLinks _ _ _ true].
 Definition c20_input : bytes := B"<a href=""http://example.org/"">t".
 Theorem C20_refuted_forced_attr_order :
-  plain_policy c20_interp c20_policy /\
+  plain_policy c20_interp c20_policy /\ allowComments c20_policy = false /\
   sanitize_bytes c20_interp c20_policy c20_input = B"<a href=""http://example.org/"" rel=""nofollow noopener"" target=""_blank"">t" /\
   sanitize_bytes c20_interp c20_policy (sanitize_bytes c20_interp c20_policy c20_input)
     = B"<a href=""http://example.org/"" target=""_blank"" rel=""nofollow noopener"">t".
 Proof.
-  split; [|split; vm_compute; reflexivity].
-  split; [vm_compute; reflexivity|]. split; [vm_compute; reflexivity|].
+  split; [|split; [vm_compute; reflexivity | split; vm_compute; reflexivity]].
+  split; [vm_compute; reflexivity|].
   intros n Hn. unfold is_raw_name in Hn. apply existsb_exists in Hn as (x & Hx & E). apply beqb_eq in E. subst x.
   cbn in Hx. repeat (destruct Hx as [<-|Hx]; [vm_compute; reflexivity|]). contradiction.
 Qed.
